@@ -220,6 +220,25 @@ fn one(ctx: &Ctx, rep: &mut Report, id: usize, c: usize, profile: &str) {
         w.window("drop cloned RangeWitness", move || drop(wit2));
         let wit3 = RangeWitness::init((0..m).map(|j| CommitmentOpening::new(values[j], case.blindings[j].clone())).collect()).unwrap();
         w.window("drop RangeWitness", move || drop(wit3));
+        // openings dropped outside a witness: in a Vec, in a Box, and by a witness constructor that refuses them
+        let ov: Vec<CommitmentOpening> = (0..m).map(|j| CommitmentOpening::new(values[j], case.blindings[j].clone())).collect();
+        w.window("drop Vec<CommitmentOpening>", move || drop(ov));
+        let ob = Box::new(CommitmentOpening::new(values[0], case.blindings[0].clone()));
+        w.window("drop Box<CommitmentOpening>", move || drop(ob));
+        let mut odd: Vec<CommitmentOpening> = (0..m).map(|j| CommitmentOpening::new(values[j], case.blindings[j].clone())).collect();
+        odd.push(CommitmentOpening::new(values[0], vec![case.blindings[0][0]; ext % 6 + 1]));
+        w.window("drop openings refused by RangeWitness::init", move || {
+            let _ = RangeWitness::init(odd);
+        });
+        // a witness built from a vector with spare capacity
+        let mut slack: Vec<CommitmentOpening> = Vec::with_capacity(m + 5);
+        for j in 0..m {
+            slack.push(CommitmentOpening::new(values[j], case.blindings[j].clone()));
+        }
+        let wslack = w.window("RangeWitness::init from a vector with spare capacity", move || RangeWitness::init(slack));
+        if let Ok(ws) = wslack {
+            w.window("drop RangeWitness (spare capacity)", move || drop(ws));
+        }
         let mask = ExtendedMask::assign(ext_of(ext), case.blindings[0].clone()).unwrap();
         w.window("drop ExtendedMask", move || drop(mask));
         // a constructor that refuses its input drops the caller-supplied vector: no owning object ever existed, so
